@@ -244,7 +244,7 @@ def parse_kani_log(text, allowed_fail=None):
             res["reason"] = "CBMC error / out of memory"
         else:
             res["reason"] = "no verdict in output"
-    res["stubs"] = sorted(set(re.findall(r"- Stub: (\S+)", text)))
+    res["stubs"] = sorted(set(x.strip() for x in re.findall(r"- Stub: ([^\n]+)", text)))
     return res
 
 
